@@ -20,6 +20,7 @@ fn main() {
     std::panic::set_hook(Box::new(|_| {}));
     let code = match args[1].as_str() {
         "pipeline" => cmd_pipeline(&args[2..]),
+        "challenger" => cmd_challenger(&args[2..]),
         "show" => {
             // p3r show < one replay record on stdin: print the real compiled circuit
             let mut line = String::new();
@@ -89,7 +90,7 @@ fn cmd_pipeline(args: &[String]) -> i32 {
     let c10_runs = Mutex::new(0u64);
     let vcs = Mutex::new(Vec::<VerdictCmp>::new());
     let distinct = Mutex::new(std::collections::HashSet::<String>::new());
-    let packings_all: [(usize, usize, usize, usize); 4] = [(1, 1, 2, 1), (1, 2, 2, 1), (2, 3, 3, 8), (1, 1, 4, 16)];
+    let packings_all: [(usize, usize, usize, usize); 4] = [(1, 1, 2, 1), (2, 3, 3, 8), (1, 2, 2, 1), (4, 4, 4, 16)];
 
     let nlines = lines.len();
     let chunk = nlines.div_ceil(threads.max(1)).max(1);
@@ -224,5 +225,97 @@ fn cmd_pipeline(args: &[String]) -> i32 {
     });
     let mut f = std::fs::File::create(&out).expect("create out");
     f.write_all(serde_json::to_string_pretty(&result).unwrap().as_bytes()).unwrap();
+    0
+}
+
+/// p3r challenger --in hist.ndjson --seed N --out result.json [--configs a,b]
+fn cmd_challenger(args: &[String]) -> i32 {
+    use p3r_verif_harness::challenger::{self, ChRec};
+    let input = arg(args, "--in").expect("--in");
+    let seed: u64 = arg(args, "--seed").and_then(|s| s.parse().ok()).unwrap_or(1);
+    let out = arg(args, "--out").expect("--out");
+    let threads: usize = arg(args, "--threads").and_then(|s| s.parse().ok()).unwrap_or(16);
+    let cfgs: Vec<String> = arg(args, "--configs").map(|s| s.split(',').map(String::from).collect()).unwrap_or_else(|| challenger::CONFIGS.iter().map(|s| s.to_string()).collect());
+    let f = std::fs::File::open(&input).expect("open input");
+    let lines: Vec<String> = BufReader::new(f).lines().map(|l| l.unwrap()).filter(|l| !l.trim().is_empty()).collect();
+    let nlines = lines.len();
+    let chunk = nlines.div_ceil(threads.max(1)).max(1);
+    let agg = Mutex::new(Agg::default());
+    let totals = Mutex::new(BTreeMap::<String, u64>::new());
+    let samples = Mutex::new(Vec::<Value>::new());
+    let distinct = Mutex::new(std::collections::HashSet::<String>::new());
+    std::thread::scope(|sc| {
+        for (ti, part) in lines.chunks(chunk).enumerate() {
+            let (agg, totals, samples, cfgs, distinct) = (&agg, &totals, &samples, &cfgs, &distinct);
+            sc.spawn(move || {
+                let mut local: Vec<Finding> = Vec::new();
+                let mut t = BTreeMap::<String, u64>::new();
+                let mut ld = std::collections::HashSet::<String>::new();
+                for (li, line) in part.iter().enumerate() {
+                    let rec: ChRec = match serde_json::from_str(line) {
+                        Ok(r) => r,
+                        Err(_) => {
+                            *t.entry("bad_lines".into()).or_default() += 1;
+                            continue;
+                        }
+                    };
+                    let gidx = (ti * chunk + li) as u64;
+                    *t.entry("histories".into()).or_default() += 1;
+                    let hist_json = serde_json::to_value(&rec.hist).unwrap();
+                    if rec.hist.iter().map(|h| h.op.as_str()).collect::<std::collections::HashSet<_>>().len() >= 2 {
+                        ld.insert(hist_json.to_string());
+                    }
+                    for cfg in cfgs.iter() {
+                        let Some(o) = challenger::replay_config(cfg, &rec, seed.wrapping_mul(1_000_003).wrapping_add(gidx)) else { continue };
+                        *t.entry(format!("replays:{cfg}")).or_default() += 1;
+                        *t.entry("replays".into()).or_default() += 1;
+                        *t.entry("samples_compared".into()).or_default() += o.samples as u64;
+                        if o.pow_rejected {
+                            *t.entry("pow_rejected_by_native".into()).or_default() += 1;
+                        }
+                        // model binding: the number of permutations the model predicts
+                        if !o.pow_rejected && o.native_perms != rec.nperms {
+                            *t.entry("model_drift_perm_count".into()).or_default() += 1;
+                        }
+                        let has_foreign = rec.hist.iter().any(|h| h.op == "foreign");
+                        match (&o.mismatch, rec.agree) {
+                            (None, true) => *t.entry("agree:model_and_code".into()).or_default() += 1,
+                            (None, false) => *t.entry("model_diverges_code_agrees".into()).or_default() += 1,
+                            (Some(_), false) => *t.entry("diverge:model_and_code".into()).or_default() += 1,
+                            (Some(_), true) => *t.entry("model_agrees_code_diverges".into()).or_default() += 1,
+                        }
+                        if let Some(m) = o.mismatch {
+                            let kind = if m.starts_with("value handed out") { "sample-differs-from-native" }
+                                else if m.starts_with("permutation count") { "permutation-count-differs" }
+                                else if m.starts_with("native proof-of-work") { "pow-accepted-by-circuit-only" }
+                                else if m.starts_with("circuit run fails") { "circuit-unsatisfiable-on-native-transcript" }
+                                else { "transcript-replay-error" };
+                            let shape = if has_foreign { "foreign-permutation-row-between-challenger-rows" } else { "plain" };
+                            local.push(Finding { property: "C05".into(), kind: kind.into(), signature: format!("{kind}@{shape}+{cfg}"),
+                                detail: json!({"config": cfg, "history": hist_json, "mismatch": m, "detail": o.detail}) });
+                        }
+                    }
+                    if gidx % (nlines as u64 / 5).max(1) == 0 {
+                        samples.lock().unwrap().push(json!({"history": hist_json, "model": {"perms": rec.nperms, "samples": rec.nsamples, "agree": rec.agree}}));
+                    }
+                }
+                let mut a = agg.lock().unwrap();
+                for f in local {
+                    a.add(f);
+                }
+                let mut tt = totals.lock().unwrap();
+                for (k, v) in t {
+                    *tt.entry(k).or_default() += v;
+                }
+                distinct.lock().unwrap().extend(ld);
+            });
+        }
+    });
+    let groups: Vec<Value> = agg.lock().unwrap().groups.iter()
+        .map(|((p, k, s), (n, d))| json!({"property": p, "kind": k, "signature": s, "count": n, "example": d})).collect();
+    let mut stats = totals.lock().unwrap().clone();
+    stats.insert("distinct_nontrivial".into(), distinct.lock().unwrap().len() as u64);
+    let result = json!({"stats": stats, "findings": groups, "samples": *samples.lock().unwrap(), "errors": []});
+    std::fs::write(&out, serde_json::to_string_pretty(&result).unwrap()).unwrap();
     0
 }
